@@ -83,10 +83,8 @@ def convert (reg : Registry) (Γ : VarEnv) : E → Option Container → Except U
       let rb ← convert reg Γ b none
       let wc := ra.wc || rb.wc
       let u := mulC ra.u rb.u
-      if tgt.isSome || wc then
-        -- `expr.func(*new_args)`: a new object even when nothing changed
-        maybeConv reg (.mul ra.e rb.e) wc u tgt false
-      else pure ⟨.mul a b, false, u, true⟩
+      -- the product is rebuilt only when an operand was converted (after the repair recorded in findings/C05.json)
+      maybeConv reg (if wc then .mul ra.e rb.e else .mul a b) wc u tgt (!wc)
   | .pow b x, tgt => do
       let rx ← convert reg Γ x (some [])
       let xv ← match evalClosed rx.e with
@@ -139,6 +137,23 @@ def convert (reg : Registry) (Γ : VarEnv) : E → Option Container → Except U
       let rb ← convert reg Γ b (some [])
       let wc := ra.wc || rb.wc
       pure ⟨if wc then .fnN f ra.e rb.e else .fnN f a b, wc, rb.u, !wc⟩
+  -- `And`, `Or`, `Not` are SymPy Functions (`is_Function` is True): the function branch applies to them
+  | .and a b, tgt => do
+      if !dimlessTarget tgt then throw .mustBeDimensionless
+      let ra ← convert reg Γ a (some [])
+      let rb ← convert reg Γ b (some [])
+      let wc := ra.wc || rb.wc
+      pure ⟨if wc then .and ra.e rb.e else .and a b, wc, rb.u, !wc⟩
+  | .or a b, tgt => do
+      if !dimlessTarget tgt then throw .mustBeDimensionless
+      let ra ← convert reg Γ a (some [])
+      let rb ← convert reg Γ b (some [])
+      let wc := ra.wc || rb.wc
+      pure ⟨if wc then .or ra.e rb.e else .or a b, wc, rb.u, !wc⟩
+  | .not a, tgt => do
+      if !dimlessTarget tgt then throw .mustBeDimensionless
+      let ra ← convert reg Γ a (some [])
+      pure ⟨if ra.wc then .not ra.e else .not a, ra.wc, ra.u, !ra.wc⟩
   | .undef, _ => .error .unexpectedMath
   | .other _, _ => .error .unexpectedMath
   -- numbers, constants and every Boolean that is not a relation: a leaf that can only be dimensionless
